@@ -29,7 +29,7 @@ LIT_NULL = ("lit", ("null",))
 
 def sql_text_literal(b):
     s = b.decode("latin-1")
-    assert "'" not in s and "\\" not in s
+    assert "'" not in s      # a backslash is an ordinary character of a string literal (sql/parser/lexer.rs read_string)
     return "'" + s + "'"
 
 
